@@ -253,3 +253,10 @@ var _ = token.NoPos
 var _ = strings.TrimSpace
 
 func unquote(s string) (string, error) { return strconv.Unquote(s) }
+
+func constantInt64(v constant.Value) (int64, bool) {
+	if v == nil || v.Kind() != constant.Int {
+		return 0, false
+	}
+	return constant.Int64Val(v)
+}
